@@ -19,9 +19,12 @@ struct Acc {
 }
 
 fn check_one(spec: &TlSpec, rt: &RefTl, tl: &PTimeline, start: Option<&P>, t: f32, ph: &Phase, init: &P, rank: u64, acc: &mut Acc) {
-    let got = eval_real(tl, t, init);
-    let want = rt.eval_phase(ph, start);
     acc.evals += 1;
+    let Some(got) = try_eval_real(tl, t, init) else {
+        acc.sink.add("panic-in-update", rank, || (format!("t={t}: Timeline::update panicked"), case_json(spec, start, t, init)));
+        return;
+    };
+    let want = rt.eval_phase(ph, start);
     let q = ph.pos();
     if rt.a.interpolating_at(q) {
         acc.nontrivial += 1;
@@ -149,6 +152,71 @@ fn nondyadic_pass(nmax: usize) -> Acc {
     )
 }
 
+
+/// Wide (2^j+1 keyframes) and tall (every subset of a 9-point grid) families, see common.rs. Every
+/// keyframe position and every segment midpoint (wide) / every 1/32 (tall), in the forward pass, the
+/// reverse pass and a repeated cycle, with and without a substituted start value.
+fn wide_tall_pass(thorough: bool) -> (Acc, Vec<u32>) {
+    let js: Vec<u32> = if thorough { (1..=17).collect() } else { vec![4, 8, 9, 16] };
+    let timings = wide_timings();
+    let init = P::sentinel();
+    let vs = vstar();
+    // work items: wide (j, pattern, timing) and tall (timing, chunk of 64 specs)
+    let mut items: Vec<(u32, u8, usize, usize)> = vec![];
+    for &j in &js {
+        for pattern in 0..2u8 {
+            for ti in 0..2 {
+                items.push((j, pattern, ti, 0));
+            }
+        }
+    }
+    let talls: Vec<Vec<TlSpec>> = timings.iter().map(|t| tall_specs(*t)).collect();
+    for ti in 0..2 {
+        for c in 0..talls[ti].len().div_ceil(64) {
+            items.push((0, 0, ti, c));
+        }
+    }
+    let acc = par_fold(
+        items.len(),
+        Acc::default,
+        |i, acc| {
+            let (j, pattern, ti, chunk) = items[i];
+            let th = &timings[ti];
+            let mut one = |spec: &TlSpec, qs: &mut dyn Iterator<Item = f32>, rank: u64, acc: &mut Acc| {
+                let rt = RefTl::new(spec);
+                let tl = spec.build();
+                let mut tls = tl.clone();
+                tls.start_with(&vs);
+                acc.timelines += 2;
+                for q in qs {
+                    for t in wide_times(th, q) {
+                        let ph = ref_phase(th, t);
+                        check_one(spec, &rt, &tl, None, t, &ph, &init, rank, acc);
+                        check_one(spec, &rt, &tls, Some(&vs), t, &ph, &init, rank, acc);
+                    }
+                }
+            };
+            if j > 0 {
+                let spec = wide_spec(j, pattern, *th);
+                one(&spec, &mut wide_positions(j), (2u64 << 60) | (j as u64) << 40 | (pattern as u64) << 8 | ti as u64, acc);
+            } else {
+                for (si, spec) in talls[ti].iter().enumerate().skip(chunk * 64).take(64) {
+                    one(spec, &mut (0..=32).map(|i| i as f32 / 32.0), (3u64 << 60) | (spec.kfs.len() as u64) << 40 | (si as u64) << 8 | ti as u64, acc);
+                }
+            }
+        },
+        |a, b| {
+            a.sink.merge(b.sink);
+            a.timelines += b.timelines;
+            a.evals += b.evals;
+            a.nontrivial += b.nontrivial;
+            a.ambiguous_skipped += b.ambiguous_skipped;
+            a.outcomes.extend(b.outcomes);
+        },
+    );
+    (acc, js)
+}
+
 pub fn run(run: Run) -> ! {
     let nmax = if run.is_thorough() { 5 } else { 3 };
     let thetas = theta();
@@ -231,7 +299,16 @@ pub fn run(run: Run) -> ! {
     acc.timelines += nd.timelines;
     acc.evals += nd.evals;
     acc.nontrivial += nd.nontrivial;
+    let (wt, wide_js) = wide_tall_pass(run.is_thorough());
+    let wt_evals = wt.evals;
+    acc.sink.merge(wt.sink);
+    acc.timelines += wt.timelines;
+    acc.evals += wt.evals;
+    acc.nontrivial += wt.nontrivial;
+    acc.ambiguous_skipped += wt.ambiguous_skipped;
     let mut cov = Map::new();
+    cov.insert("wide_and_tall_family_evaluations".into(), json!(wt_evals));
+    cov.insert("wide_family_keyframe_counts".into(), json!(wide_js.iter().map(|j| (1u64 << j) + 1).collect::<Vec<_>>()));
     cov.insert("non_dyadic_family_evaluations".into(), json!(nd_evals));
     cov.insert("non_dyadic_family_skipped_within_jitter_of_a_discontinuity".into(), json!(nd_skipped));
     cov.insert("states".into(), json!(acc.timelines));
@@ -239,7 +316,7 @@ pub fn run(run: Run) -> ! {
     cov.insert("traces_validated_against_impl".into(), json!(acc.evals));
     cov.insert("evaluations".into(), json!(acc.evals));
     cov.insert("distinct_nontrivial".into(), json!(acc.nontrivial));
-    cov.insert("rule".into(), json!(format!("every keyframe list of size 0..={nmax} over positions {{0,1/4,1/2,3/4,1}} (ascending insertion, repeated positions included) x per-keyframe property subset in {{none,a,k,a+k}} x per-keyframe easing in {{none,x^2,1-(1-x)^2}} x default easing in {{Linear,OutBack}} (and, below the largest size, the same lists with the f64 property d in place of a) x 6 timing configurations x {{no start_with, start_with(v*)}} x time grid tau (32 points per cycle, all phases, 1e6, f32::MAX); states = timelines built, transitions = Timeline::update calls, each compared with RefTimeScale.RefCss; plus a non-dyadic companion family (positions 0,0.1,0.3,0.7,1; cycles 0.3,3,0.7,7; delay 0.1; built-in easings Ease/InQuad/InOutCubic; 29 irrational-offset samples per cycle) under the same tolerance, skipping samples within the f32 jitter window of a discontinuity of the time map; a (case,property) is non-trivial when the position lies strictly between two defining keyframes with different values")));
+    cov.insert("rule".into(), json!(format!("every keyframe list of size 0..={nmax} over positions {{0,1/4,1/2,3/4,1}} (ascending insertion, repeated positions included) x per-keyframe property subset in {{none,a,k,a+k}} x per-keyframe easing in {{none,x^2,1-(1-x)^2}} x default easing in {{Linear,OutBack}} (and, below the largest size, the same lists with the f64 property d in place of a) x 6 timing configurations x {{no start_with, start_with(v*)}} x time grid tau (32 points per cycle, all phases, 1e6, f32::MAX); states = timelines built, transitions = Timeline::update calls, each compared with RefTimeScale.RefCss; plus a non-dyadic companion family (positions 0,0.1,0.3,0.7,1; cycles 0.3,3,0.7,7; delay 0.1; built-in easings Ease/InQuad/InOutCubic; 29 irrational-offset samples per cycle) under the same tolerance, skipping samples within the f32 jitter window of a discontinuity of the time map; plus a WIDE family (one timeline of 2^j+1 keyframes at i/2^j for the j listed under wide_family_keyframe_counts, two property patterns - dense a / sparse k,d and sparse a / dense k - evaluated at every keyframe position and every segment midpoint, forward, reverse and repeated pass) and a TALL family (every subset of size >= 2 of the grid {{0,1/8,..,1}} as position list, two content patterns, every 1/32), both with and without start_with: index arithmetic beyond the small-scope bound; a (case,property) is non-trivial when the position lies strictly between two defining keyframes with different values")));
     cov.insert("exhaustive".into(), json!(true));
     cov.insert("max_keyframes".into(), json!(nmax));
     cov.insert("ambiguous_positions_skipped".into(), json!(acc.ambiguous_skipped));
